@@ -1477,7 +1477,7 @@ func (a *align) MaxCharStats(ignoreGaps, ignoreNs bool) (out []uint8, occur []in
 			// Otherwise, if v > max, we update max occurence char
 			if !(ignoreGaps && k == GAP) && !(ignoreNs && (k == all || k == allc)) {
 				total[site] += v
-				if v > max {
+				if v > max || (v == max && k < out[site]) {
 					out[site] = k
 					occur[site] = v
 					max = v
